@@ -507,7 +507,7 @@ def _drive(obs, mgr, xfers, spec, mode, do_cancel):
         obs.shutdown_exc = sh.exc
         log.add('shutdown.end', error=repr(sh.exc) if sh.exc else None)
         _post_shutdown(obs)
-    elif mode in ('kbi_result', 'kbi_shutdown'):
+    elif mode in ('kbi_result', 'kbi_shutdown', 'kbi_exit'):
         _drive_kbi(obs, mgr, xfers, spec, mode, start_results)
     elif mode in ('shutdown_cancel', 'with_exc', 'with_kbi', 'shutdown_plain'):
         # wait for the trigger (a director cancel point signalling the main
@@ -690,6 +690,10 @@ def _drive_kbi(obs, mgr, xfers, spec, mode, start_results):
             if mode == 'kbi_result':
                 log.add('result.call', label=xfers[0].label)
                 xfers[0].future.result()
+            elif mode == 'kbi_exit':
+                # the with-block ended normally; Ctrl-C arrives while __exit__ waits for the unfinished transfers
+                log.add('shutdown.begin')
+                mgr.__exit__(None, None, None)
             else:
                 log.add('shutdown.begin')
                 mgr.shutdown()
@@ -705,7 +709,7 @@ def _drive_kbi(obs, mgr, xfers, spec, mode, start_results):
     stop.set()
     log.add('cancel.end', how=mode, kbi=got['kbi'])
     obs.kbi = dict(got, sent=state['sent'])
-    if mode == 'kbi_shutdown':
+    if mode in ('kbi_shutdown', 'kbi_exit'):
         obs.done_at_barrier = {x.label: (x.future.done() if x.future is not None else None) for x in xfers}
         log.add('shutdown.end', error='KeyboardInterrupt' if got['kbi'] else None)
         _post_shutdown(obs)
